@@ -73,6 +73,14 @@ pub fn kmer_cases(tier: &str, rng: &mut Rng, rep: &mut Report) -> Vec<Case> {
     }
     rep.exhaustive_spaces
         .push("all 256 byte values between clean flanks, k in {1,2,3,16,31} (0x00-0x03 informational)".into());
+    // a very long run of ambiguous bytes (an assembly gap): whatever the iterator does per ambiguous byte, it must not
+    // accumulate (stack, counters)
+    {
+        let mut s = b"ACGTAC".to_vec();
+        s.extend(std::iter::repeat(b'N').take(1_200_000));
+        s.extend_from_slice(b"GATTACA");
+        cases.push(Case::new("kmers", &[3], &s, "long-gap"));
+    }
     // a few very long clean stretches (counters and registers over tens of thousands of steps)
     for &(k, len) in &[(21u64, 66_000usize), (31, 70_000), (2, 66_500)] {
         let mut s = gen::clean_seq(rng, len, gen::Flavor::Uniform);
